@@ -868,7 +868,7 @@ def scenario_job(athlib, scn, sched_seeds, opts):
     stalls = 0
     # change-aware budget, line level: if the tree under test differs from the baseline commit, scenarios
     # whose calls execute (or whose functions contain) lines near the difference get 1.5 K schedules, the
-    # others K/4, and half of a touching scenario's pre-emptions are placed near the changed lines
+    # others K/2, and half of a touching scenario's pre-emptions are placed near the changed lines
     focus = None
     if CHANGED:
         touched = set()
@@ -882,7 +882,8 @@ def scenario_job(athlib, scn, sched_seeds, opts):
             cnt.inc('scenarios_touching_changed_lines')
             sched_seeds = list(sched_seeds) + [common.run_seed(PROP, 'extra', sched_seeds[0], j) for j in range(len(sched_seeds) // 2)]
         else:
-            sched_seeds = list(sched_seeds)[:max(2, len(sched_seeds) // 4)]
+            # (not K/4: a change at module level - a table, a constant - is executed by no call at all)
+            sched_seeds = list(sched_seeds)[:max(2, len(sched_seeds) // 2)]
     for k, sseed in enumerate(sched_seeds):
         rng = random.Random(sseed)
         spec = draw_schedule(rng, len(programs), traces, wlines, used, focus)
